@@ -169,6 +169,26 @@ def run(chk, fb, tier):
                         a0, a1, a2 = (hirq.strip(a) for a in args)
                         is_wrap = lambda a: from_getter(a, "get_wrap_with_char")
                         wrap_ok = is_wrap(a0) and is_wrap(a2) and not is_wrap(a1)
+    if wrap_if is not None and not wrap_ok:
+        # push style: s.push_str(wrap); s.push_str(value); s.push_str(wrap) on one String
+        by_recv = {}
+        for x in hirq.walk(wrap_if["then"]):
+            if x.get("k") == "mcall" and x.get("name") in ("push_str", "push") and x.get("args"):
+                rc_ = hirq.strip(x["recv"])
+                if rc_.get("k") == "path":
+                    by_recv.setdefault(rc_.get("lid"), []).append(hirq.strip(x["args"][0]))
+        def is_wrap(a, depth=0):
+            """the wrap character itself: the getter call, or a local bound directly to it"""
+            a = hirq.strip(a)
+            while a.get("k") == "ref":
+                a = hirq.strip(a["e"])
+            if a.get("k") == "mcall" and (a.get("def") or "").endswith("get_wrap_with_char"):
+                return True
+            return a.get("k") == "path" and a.get("lid") in lets and depth < 3 and is_wrap(lets[a["lid"]], depth + 1)
+
+        for lid_, parts in by_recv.items():
+            if len(parts) == 3 and is_wrap(parts[0]) and is_wrap(parts[2]) and not is_wrap(parts[1]):
+                wrap_ok = True
     chk.ob(rc, "wrap-both-sides", wrap_ok, where=where(wrap_if) if wrap_if else where(i[0]), detail="wrapped value is <wrap><value><wrap>: %s" % wrap_ok)
     cond_ok = False
     if wrap_if is not None:
